@@ -323,7 +323,11 @@ Section ContainerProofs.
 
   (* ---------- order ---------- *)
   Variable UK : K -> Prop.                 (* the fitness values that may be compared *)
-  Hypothesis worse_better : forall a b, UK a -> UK b -> worse a b = better b a.
+  Variable bot : K -> bool.                (* bottom elements: an invalid fitness *)
+  (* `<` is the converse of `>` except for a bottom element, which is `<` everything (itself and
+     other bottoms included) and `>` nothing *)
+  Hypothesis worse_better : forall a b, UK a -> UK b ->
+    if bot a then worse a b = true /\ better a b = false else worse a b = better b a.
   Hypothesis better_irrefl : forall a, UK a -> better a a = false.
   Hypothesis better_trans : forall a b c, UK a -> UK b -> UK c ->
     better a b = true -> better b c = true -> better a c = true.
@@ -362,16 +366,30 @@ Section ContainerProofs.
     UK (key it) -> kuniv a -> ksorted a ->
     exists l1 l2, keys a = l1 ++ l2 /\ keys (arch_insert a it) = l1 ++ key it :: l2 /\
                   Forall (fun y => better y (key it) = false) l1 /\
-                  Forall (fun y => better y (key it) = true) l2.
+                  Forall (fun y => better (key it) y = false) l2.
   Proof.
-    intros Ux U S. destruct (sorted_partition (key it) (keys a) Ux U S) as (l1 & l2 & E & F1 & F2).
-    exists l1, l2. repeat split; try assumption.
-    unfold Hof.arch_insert. simpl. rewrite E.
-    unfold kuniv in U. rewrite E, Forall_app in U. destruct U as [U1 U2].
-    rewrite bisect_right_spec.
-    - apply insert_at_app.
-    - rewrite Forall_forall in *. intros y Hy. rewrite worse_better; auto.
-    - rewrite Forall_forall in *. intros y Hy. rewrite worse_better; auto.
+    intros Ux U S. destruct (bot (key it)) eqn:B.
+    - (* a bottom element goes to the very front of the keys (the end of the items) *)
+      exists [], (keys a). split; [reflexivity|]. split; [|split; [constructor|]].
+      + unfold Hof.arch_insert. simpl.
+        assert (B0 : bisect_right worse (key it) (keys a) = 0).
+        2:{ rewrite B0. reflexivity. }
+        apply (bisect_right_spec (key it) [] (keys a)); [constructor|].
+        unfold kuniv in U. rewrite Forall_forall in *. intros y Hy.
+        pose proof (worse_better (key it) y Ux (U y Hy)) as W. rewrite B in W. apply W.
+      + unfold kuniv in U. rewrite Forall_forall in *. intros y Hy.
+        pose proof (worse_better (key it) y Ux (U y Hy)) as W. rewrite B in W. apply W.
+    - destruct (sorted_partition (key it) (keys a) Ux U S) as (l1 & l2 & E & F1 & F2).
+      unfold kuniv in U. rewrite E, Forall_app in U. destruct U as [U1 U2].
+      exists l1, l2. repeat split; try assumption.
+      + unfold Hof.arch_insert. simpl. rewrite E.
+        rewrite bisect_right_spec.
+        * apply insert_at_app.
+        * rewrite Forall_forall in *. intros y Hy.
+          pose proof (worse_better (key it) y Ux (U1 y Hy)) as W. rewrite B in W. rewrite W. auto.
+        * rewrite Forall_forall in *. intros y Hy.
+          pose proof (worse_better (key it) y Ux (U2 y Hy)) as W. rewrite B in W. rewrite W. auto.
+      + rewrite Forall_forall in *. intros y Hy. apply better_asym; auto.
   Qed.
 
   Lemma arch_insert_sorted a it :
@@ -382,8 +400,7 @@ Section ContainerProofs.
     destruct (ssorted_app_inv _ _ _ S) as (S1 & S2 & C).
     rewrite Forall_app in U. destruct U as [U1 U2]. split.
     - apply ssorted_app; [exact S1| |].
-      + constructor; [exact S2|]. rewrite Forall_forall in *. intros y Hy.
-        apply better_asym; auto.
+      + constructor; [exact S2|exact F2].
       + intros x y Hx [<-|Hy]; [|apply C; assumption].
         rewrite Forall_forall in F1. apply F1, Hx.
     - rewrite Forall_app. split; [exact U1|constructor; assumption].
@@ -424,7 +441,9 @@ Section HofInvariant.
   Variables worse better : K -> K -> bool.
   Variable uidf : I -> nat.
   Variable UK : K -> Prop.
-  Hypothesis worse_better : forall a b, UK a -> UK b -> worse a b = better b a.
+  Variable bot : K -> bool.
+  Hypothesis worse_better : forall a b, UK a -> UK b ->
+    if bot a then worse a b = true /\ better a b = false else worse a b = better b a.
   Hypothesis better_irrefl : forall a, UK a -> better a a = false.
   Hypothesis better_trans : forall a b c, UK a -> UK b -> UK c ->
     better a b = true -> better b c = true -> better a c = true.
@@ -594,7 +613,7 @@ Section HofInvariant.
         destruct (last_is_worst K I key better a front w M S E m Hm) as [Wm| ->]; [|exact B].
         apply (better_negtrans _ (key w)); auto. apply Uit. rewrite E. apply in_or_app. right. left. reflexivity.
     - (* room left: insert *)
-      destruct (arch_insert_sorted K I key worse better UK worse_better better_irrefl better_trans better_negtrans a ind Uind KU S) as [S' _].
+      destruct (arch_insert_sorted K I key worse better UK bot worse_better better_irrefl better_trans better_negtrans a ind Uind KU S) as [S' _].
       constructor.
       + apply arch_insert_mirror, M.
       + exact S'.
@@ -617,7 +636,7 @@ Section HofInvariant.
       destruct (remove_nat_sorted K I better UK a (size a - 1) S KU) as [S1 KU1]. fold a1 in S1, KU1.
       assert (I1 : items a1 = front) by (apply (remove_last_items K I a front w E)).
       assert (Z1 : size a1 = size a - 1) by (apply remove_nat_size; exact Hlast).
-      destruct (arch_insert_sorted K I key worse better UK worse_better better_irrefl better_trans better_negtrans a1 ind Uind KU1 S1) as [S' _].
+      destruct (arch_insert_sorted K I key worse better UK bot worse_better better_irrefl better_trans better_negtrans a1 ind Uind KU1 S1) as [S' _].
       assert (Hw : In w (items a)) by (rewrite E; apply in_or_app; right; left; reflexivity).
       assert (Hfront : forall m, In m front -> In m (items a)) by (intros m Hm; rewrite E; apply in_or_app; left; exact Hm).
       assert (Bw : better (key w) (key ind) = false) by (apply better_asym; auto).
@@ -775,18 +794,24 @@ Definition uid_consistent (seen : list indiv) : Prop :=
    pairwise identical or clearly separated (as in C09), one fitness per uid *)
 Definition shown_ok (seen : list indiv) : Prop := SepU (map fitness seen) /\ uid_consistent seen.
 
+(* the same, but individuals whose evaluation failed (invalid fitness) may be shown as well *)
+Definition shown_okv (seen : list indiv) : Prop := SepV (map fitness seen) /\ uid_consistent seen.
+
+Lemma shown_ok_okv seen : shown_ok seen -> shown_okv seen.
+Proof. intros [S C]. split; [apply SepU_SepV, S|exact C]. Qed.
+
 Section HofConcrete.
   Variable k : nat.
   Hypothesis kpos : 1 <= k.
   Variable seen_all : list indiv.          (* everything ever shown, fixes the universe *)
-  Hypothesis HS : SepU (map fitness seen_all).
+  Hypothesis HS : SepV (map fitness seen_all).
 
   Let U := inU (map fitness seen_all).
 
-  Let wb := u_worse _ HS.
-  Let bi := u_better_irrefl _ HS.
-  Let bt := u_better_trans _ HS.
-  Let bn := u_better_negtrans _ HS.
+  Let wb := v_worse _ HS.
+  Let bi := v_better_irrefl (map fitness seen_all).
+  Let bt := v_better_trans _ HS.
+  Let bn := v_better_negtrans _ HS.
 
   Lemma good_seen_of seen :
     incl seen seen_all -> uid_consistent seen -> good_seen fit indiv fitness uid U seen.
@@ -804,7 +829,7 @@ Section HofConcrete.
     HInv fit indiv fitness f_better uid k (concat pops) (hof_runs k empty_arch pops).
   Proof.
     intros Inc C. unfold hof_runs. rewrite sim_uid_similar.
-    apply (hof_inv_run fit indiv fitness f_worse f_better uid U wb bi bt bn k kpos).
+    apply (hof_inv_run fit indiv fitness f_worse f_better uid U fbot wb bi bt bn k kpos).
     apply good_seen_of; assumption.
   Qed.
 
@@ -815,7 +840,7 @@ Section HofConcrete.
                      f_better (fitness h) (fitness h') = false.
   Proof.
     intros Inc C E. unfold hof_upd. rewrite sim_uid_similar.
-    apply (best_never_worse_update fit indiv fitness f_worse f_better uid U wb bi bt bn k kpos (concat pops) _ pop h rest).
+    apply (best_never_worse_update fit indiv fitness f_worse f_better uid U fbot wb bi bt bn k kpos (concat pops) _ pop h rest).
     - apply good_seen_of; assumption.
     - apply hof_HInv.
       + intros x Hx. apply Inc. apply in_or_app. left. exact Hx.
@@ -831,9 +856,9 @@ Proof.
   - intros s t Hs Ht. apply C; apply in_or_app; left; assumption.
 Qed.
 
-(* (1) the representation invariant, after any sequence of updates *)
-Theorem hof_inv k pops :
-  1 <= k -> shown_ok (concat pops) ->
+(* (1) the representation invariant, after any sequence of updates (invalid individuals admitted) *)
+Theorem hof_inv_v k pops :
+  1 <= k -> shown_okv (concat pops) ->
   let a := hof_runs k empty_arch pops in
   length (keys a) = length (items a) /\
   keys a = rev (map fitness (items a)) /\
@@ -847,9 +872,9 @@ Proof.
   apply (mirror_length _ _ _ _ M).
 Qed.
 
-(* (2) exactly the k best distinct individuals seen, best first *)
-Theorem hof_k_best k pops :
-  1 <= k -> shown_ok (concat pops) ->
+(* (2) exactly the k best distinct individuals seen, best first (invalid ones rank last) *)
+Theorem hof_k_best_v k pops :
+  1 <= k -> shown_okv (concat pops) ->
   let seen := concat pops in
   let a := hof_runs k empty_arch pops in
   incl (items a) seen /\
@@ -872,8 +897,8 @@ Proof.
 Qed.
 
 (* (3) the best archived fitness never gets worse from one update to the next *)
-Theorem hof_best_never_worse k pops pop h rest :
-  1 <= k -> shown_ok (concat (pops ++ [pop])) ->
+Theorem hof_best_never_worse_v k pops pop h rest :
+  1 <= k -> shown_okv (concat (pops ++ [pop])) ->
   items (hof_runs k empty_arch pops) = h :: rest ->
   exists h' rest', items (hof_runs k empty_arch (pops ++ [pop])) = h' :: rest' /\
                    f_better (fitness h) (fitness h') = false.
@@ -881,6 +906,50 @@ Proof.
   intros kpos [S C] E. rewrite concat_app in S, C. simpl in S, C. rewrite app_nil_r in S, C.
   unfold hof_runs, hof_run. rewrite fold_left_app. simpl.
   apply (hof_best_update k kpos (concat pops ++ pop) S pops pop h rest (incl_refl _) C E).
+Qed.
+
+(* the all-valid statements (used by C01) are instances *)
+Theorem hof_inv k pops :
+  1 <= k -> shown_ok (concat pops) ->
+  let a := hof_runs k empty_arch pops in
+  length (keys a) = length (items a) /\
+  keys a = rev (map fitness (items a)) /\
+  StronglySorted (fun x y => f_better x y = false) (keys a) /\
+  length (items a) <= k /\
+  NoDup (map uid (items a)).
+Proof. intros kpos H. apply hof_inv_v; [exact kpos|apply shown_ok_okv, H]. Qed.
+
+Theorem hof_k_best k pops :
+  1 <= k -> shown_ok (concat pops) ->
+  let seen := concat pops in
+  let a := hof_runs k empty_arch pops in
+  incl (items a) seen /\
+  length (items a) = Nat.min k (length (nodup Nat.eq_dec (map uid seen))) /\
+  StronglySorted (fun x y => f_better (fitness y) (fitness x) = false) (items a) /\
+  (forall s, In s seen -> (forall m, In m (items a) -> uid m <> uid s) ->
+             forall m, In m (items a) -> f_better (fitness s) (fitness m) = false).
+Proof. intros kpos H. apply hof_k_best_v; [exact kpos|apply shown_ok_okv, H]. Qed.
+
+Theorem hof_best_never_worse k pops pop h rest :
+  1 <= k -> shown_ok (concat (pops ++ [pop])) ->
+  items (hof_runs k empty_arch pops) = h :: rest ->
+  exists h' rest', items (hof_runs k empty_arch (pops ++ [pop])) = h' :: rest' /\
+                   f_better (fitness h) (fitness h') = false.
+Proof. intros kpos H. apply hof_best_never_worse_v; [exact kpos|apply shown_ok_okv, H]. Qed.
+
+(* what better-than is on a universe with invalid values: invalid is never better, every valid
+   value is better than an invalid one, valid values compare lexicographically *)
+Theorem better_with_invalid seen s t :
+  shown_okv seen -> In s seen -> In t seen ->
+  (valid (fitness s) = false -> f_better (fitness s) (fitness t) = false) /\
+  (valid (fitness s) = true -> valid (fitness t) = false -> f_better (fitness s) (fitness t) = true) /\
+  (valid (fitness s) = true -> valid (fitness t) = true ->
+   f_better (fitness s) (fitness t) = lex_lt_b (vals (fitness s)) (vals (fitness t))).
+Proof.
+  intros [S _] Hs Ht. repeat split.
+  - apply better_invalid_l.
+  - apply better_valid_invalid.
+  - apply (v_better_valid _ S); apply in_map; assumption.
 Qed.
 
 (* on the universe shown, better-than is lexicographic minimisation of the value vectors *)
